@@ -597,6 +597,59 @@ fn sort_block_no_recognizer() {
 }
 
 // ---------------------------------------------------------------------------------------------------------------
+/// C01 "REDUCE/ACCEPT entries" -- the part of LRTable::calculate_reductions that Verus cannot take (the loops over the
+/// states and over `state.items.iter().filter(|x| x.is_reducing())`, the augmented-production test with its `continue`):
+/// the real function on a table with ONE state holding three items -- the completed augmented item, a completed item of
+/// another production with lookahead {t1}, and an item that is not reducing.  Every reducing item must be processed: ACCEPT
+/// on STOP, Reduce(X, 1) on t1, nothing for the third item, nothing on other terminals.  bounded: one concrete state
+/// (the per-item placement for every follow set is proved in Verus: conflicts::reduce_block).
+#[kani::proof]
+#[kani::unwind(8)]
+fn calculate_reductions_all_items() {
+    let mut settings_owned = base_settings(None, None);
+    settings_owned.parser_algo = ParserAlgo::LR;
+    let mk = |idx: usize, nt: usize, rhs: usize| Production {
+        idx: ProdIndex(idx),
+        nonterminal: NonTermIndex(nt),
+        rhs: (0..rhs).map(|_| mk_assignment(1)).collect(),
+        ..Production::default()
+    };
+    // production 0: AUG: S ; production 1: X: t1 ; production 2: Y: t1 t1
+    let prods = vec![mk(0, 1, 1), mk(1, 2, 1), mk(2, 2, 2)];
+    let terms = vec![
+        Terminal { idx: TermIndex(0), ..Default::default() },
+        Terminal { idx: TermIndex(1), ..Default::default() },
+    ];
+    // symbols: 0 = STOP, 1 = t1, 2 = EMPTY (non-terminal 0), 3 = AUG (non-terminal 1), 4 = X/Y (non-terminal 2)
+    let mut grammar_owned = mk_grammar(prods, terms);
+    grammar_owned.nonterminals = NonTermVec(vec![NonTerminal::default(), NonTerminal::default(), NonTerminal::default()]);
+    let grammar = &grammar_owned;
+    let settings = &settings_owned;
+    let mut state = LRState::new(grammar, StateIndex(0), SymbolIndex(0));
+    let follow = |xs: &[usize]| { let mut f = Follow::new(); for x in xs { f.insert(SymbolIndex(*x)); } RefCell::new(f) };
+    state.items.push(LRItem { prod: ProdIndex(0), prod_len: 1, rn_len: None, position: 1, follow: follow(&[0]) });
+    state.items.push(LRItem { prod: ProdIndex(1), prod_len: 1, rn_len: None, position: 1, follow: follow(&[1]) });
+    state.items.push(LRItem { prod: ProdIndex(2), prod_len: 2, rn_len: None, position: 1, follow: follow(&[0, 1]) });
+    let mut table = LRTable {
+        states: StateVec(vec![state]),
+        layout_state: None,
+        grammar,
+        settings,
+        first_sets: SymbolVec::new(),
+        production_rn_lengths: None,
+    };
+    table.calculate_reductions();
+    let st = &table.states[StateIndex(0)];
+    assert!(st.actions[TermIndex(0)].len() == 1 && matches!(st.actions[TermIndex(0)][0], Action::Accept), "C01: ACCEPT missing on STOP (or something else there)");
+    assert!(st.actions[TermIndex(1)].len() == 1, "C01: a reducing item of the accepting state was not processed (or the non-reducing one was)");
+    assert!(matches!(st.actions[TermIndex(1)][0], Action::Reduce(ProdIndex(1), 1)), "C01: wrong REDUCE entry");
+    kani::cover!(true, "executed");
+    std::mem::forget(table);
+    std::mem::forget(grammar_owned);
+    std::mem::forget(settings_owned);
+}
+
+// ---------------------------------------------------------------------------------------------------------------
 /// C16: LRTable::get_conflicts never aborts, whatever unresolved cell it meets (fix 6e9f325: [Accept, Reduce]); it
 /// reports one conflict per pair of actions of a cell.  bounded(one state; three concrete cells: [A,R], [S,R,R],
 /// [R,R,R] -- six took more than ten minutes).
